@@ -394,6 +394,10 @@ def run(ctx):
     r1 = ctx.rule("R1", "decision table of the scheduler: 6 backend states x dependencies pending x stale -> submits, shown status")
     from .evalhelpers import schedule_witness
     ctx.structural_or_witness(r1, rule_decision_table, lambda: schedule_witness(ctx, full=(ctx.tier == "thorough")), "src/gwf/scheduling.py::schedule", both=True)
+    from .evalhelpers import cached_witness, report_witness, run_command_witness
+    report_witness(r1, "src/gwf/plugins/run.py::run::witness-project", "src/gwf/plugins/run.py:1", cached_witness(ctx, "run", run_command_witness),
+                   "the run command submits exactly what the property prescribes with exactly the incomplete direct dependencies as prerequisites",
+                   select=lambda d: "submits" in d or "ends with" in d)
     r1b = ctx.rule("R1b", "one submit per decision, nothing evaluated after it, dependencies decided first on every path", min_instances=5)
     rule_submit_discipline(ctx, r1b)
     r2 = ctx.rule("R2", "prerequisites = direct dependencies whose scheduled status is not complete", min_instances=3)
